@@ -9,7 +9,7 @@ def relevant(d, hist):
         return False
     if d["kind"] == "state" and d.get("basis") == "model_post" and not last["ok"] and set(d.get("queries", [])) == {"count"}:
         return True
-    if d["kind"] in ("affected_count", "panic"):
+    if d["kind"] in ("affected_count", "panic", "returning"):
         return True
     # COUNT(*) always equals the number of visible rows (judged on the same database, no model involved)
     if d["kind"] == "index_vs_scan" and "count" in d.get("queries", []):
@@ -54,6 +54,11 @@ def run(chk):
     import vlib
     globals()["vlib"] = vlib
     _run_small(chk)
+    cov = chk.cov
+    st = relrun.returning_phase(chk, relevant, signature, max_ops=4 if chk.tier == "thorough" else 3, sample=30000 if chk.tier == "thorough" else 2500)
+    chk.cov = cov
+    chk.cov["returning"] = st
+    chk.mark("returning")
     wide_phase(chk)
 
 
